@@ -6,6 +6,39 @@ from ..core import rec_fields, unhex, hexs
 
 STALE = "an edit through a handle obtained before an operation that rebuilds its node is not visible in the field"
 
+FIXES = ["insert-first", "append-sep", "pipe", "mut-root", "add-profile", "entry-push", "builder-archs",
+         "version-pos", "remove-last", "first-substvar", "replace-ws"]
+
+def detect_fixes(repo):
+    """which of the proposed fixes (proposed_fixes/C11-*.patch) the repository under test contains,
+    read off debian-control/src/lossless/relations.rs; the runner evaluates exactly that variant
+    of the model, so that correspondence is judged against the code as it is"""
+    try:
+        src = open(os.path.join(repo, "debian-control/src/lossless/relations.rs"), encoding="utf-8").read()
+    except OSError:
+        return None
+    flat = re.sub(r"\s+", " ", src)
+    found = {
+        "insert-first": "if idx == 0 && is_empty {" not in flat,
+        "append-sep": "trailing_whitespace" in flat,
+        "pipe": 'builder.token(COMMA.into(), "|")' not in flat,
+        "mut-root": "SyntaxNode::new_root(self.0.green()" not in flat,
+        "add-profile": "let node_profiles = self.0.children().find(|n| n.kind() == PROFILES);" not in flat,
+        "entry-push": flat.count("self.0.replace_with(") <= 1,
+        "builder-archs": "if !self.architectures.is_empty()" in flat,
+        "version-pos": "archqual_node.index() + 1" in flat,
+        "remove-last": "if parent.is_empty() { parent.remove(); } else { self.0.detach(); }" not in flat,
+        "first-substvar": "n.kind() == ENTRY || n.kind() == SUBSTVAR" in flat,
+        "replace-ws": "new_head_len" not in flat,
+    }
+    return [f for f in FIXES if found[f]]
+
+if "VERIF_C11_MODEL" not in os.environ:
+    _fx = detect_fixes(core.REPO)
+    if _fx is not None:
+        os.environ["VERIF_C11_MODEL"] = "fixed" if _fx == FIXES else ("shipped" if not _fx else "fixes:" + ",".join(_fx))
+MODEL_VARIANT = os.environ.get("VERIF_C11_MODEL", "fixed")
+
 def split_state(s):
     """'<hex text>:<flags>[:live:reread:entry texts]' -> dict"""
     p = s.split(":")
@@ -34,7 +67,18 @@ class C11(Prop):
     coq_targets = ["props/C11.vo"]
     props_file = "props/C11.v"
     design_ref = "DESIGN.md §4 C11, §3.2 (Rowan), §8"
-    level_text = ("see docs/cones/C11.md")
+    level_text = ("Coq theorems (model = the editing API over a store of trees with re-based handles; variant `fixed` = the code with proposed_fixes/C11-*.patch): "
+                  "(1) for EVERY in-range history of push, insert, replace, remove_entry, remove_relation, set_version, drop_constraint, set_archqual, with operands "
+                  "built by Entry::from(vec![Relation::new(..)]), from Relations::new() or any constructor-built field, issued through handles obtained from the current root: "
+                  "no panic, the root register holds exactly the constructor-built tree of the list-of-lists model (so the edit through the entry/relation handle is visible in the field), "
+                  "its structure read by the accessors is the list model, and its text is the canonical rendering (separators neither duplicated, dangling nor fused); "
+                  "(2) on ANY children list (any layout, empty entries, substitution variables): Entry::remove/Relation::remove delete the node, adjacent white space and at most one separator and nothing else; "
+                  "insert/push add the entry and separator tokens only; the entries after an insert are the list insert; an update below a path leaves the text outside that node alone; "
+                  "the store-level effect of Entry::remove through a handle at any path of any tree; "
+                  "(3) for each of the 11 defects of the shipped code a _refuted theorem (failing history on `shipped` and on the variant lacking only that fix, outcome on `fixed`); "
+                  "(4) a witness for the recorded finding (handles obtained before a rebuilding operation). "
+                  "PARTIAL: C11_full (any well-formed initial layout, all 14 operations, operands built by parsing/builder, re-parse of the printed text) is stated as a Definition; "
+                  "outside (1)-(2) the property is checked by the rel-edit stream and its list-model oracle on every run.")
     level_note = ("Model: coq/model/RelEdit.v — the editing API of debian-control/src/lossless/relations.rs over a store of trees and "
                   "re-based handles (rowan 0.16.1 red layer as the code experiences it).")
     rule = ("rel-edit: the repo's own editing tests and one case per known defect; every history of length <= 2 (thorough 3 on fewer seeds) over 62 "
@@ -52,6 +96,8 @@ class C11(Prop):
     assumptions = ["the theorems are about the code with proposed_fixes/C11-*.patch applied (the model's `fixed` variant); on the code without them the check reports the violations",
                    "indices within range where the API unwraps (replace, remove_entry, Entry::replace, remove_relation): out-of-range indices panic, in the model as in the code"]
     case_ms = 20000
+
+    extra_coverage = {"model_variant": MODEL_VARIANT}
 
     def streams(self, tier, rng):
         n = {"quick": 6000, "search": 20000, "thorough": 120000}[tier]
